@@ -307,3 +307,52 @@ Proof.
     apply filter_In in Hi as [Hi _]. apply filter_In in Hi as [Hi _].
     unfold minors_of. apply in_map. exact Hi.
 Qed.
+
+(* ------------------------------------------------------------------ GPU partitions *)
+Lemma hopper_table_spec n ps p : hopper_table n = Some ps -> In p ps -> length p = n /\ NoDup p.
+Proof.
+  intros H Hin.
+  destruct n as [|[|[|[|[|[|[|[|[|n]]]]]]]]]; cbn in H; try discriminate; injection H as <-;
+    cbn in Hin; repeat (destruct Hin as [<-|Hin]; [split; [reflexivity|]; repeat constructor; cbn; intuition lia|]);
+    destruct Hin.
+Qed.
+Lemma select_part_in used desired fs : fs <> [] -> In (select_part used desired fs) fs.
+Proof.
+  destruct fs as [|f0 [|f1 rest]]; [congruence|intros _; now left|]. intros _.
+  cbn [select_part].
+  set (step := fun (b : list nat * Z) f => let sc := binpack_score used desired f in
+                                           if snd b <? sc then (f, sc) else b).
+  assert (G : forall l b, In (fst b) (f0 :: f1 :: rest) -> incl l (f0 :: f1 :: rest) ->
+              In (fst (fold_left step l b)) (f0 :: f1 :: rest)).
+  { induction l as [|x l IH]; intros b Hb Hl; cbn [fold_left]; auto.
+    apply IH; [|intros y Hy; apply Hl; now right].
+    unfold step. cbn zeta. destruct (snd b <? binpack_score used desired x); auto.
+    cbn [fst]. apply Hl. now left. }
+  apply G; [now left|]. intros y Hy. now right.
+Qed.
+Lemma combine_seq_In {A} (l : list (option A)) s j x :
+  In (j, x) (combine (seq s (length l)) l) -> (s <= j)%nat /\ nth (j - s) l None = x.
+Proof.
+  revert s. induction l as [|y l IH]; intros s Hx; cbn in Hx; [destruct Hx|].
+  destruct Hx as [Hx|Hx].
+  - injection Hx as <- <-. rewrite Nat.sub_diag. split; auto.
+  - apply IH in Hx as [H1 H2]. split; [lia|]. replace (j - s)%nat with (S (j - S s)) by lia. exact H2.
+Qed.
+Lemma In_combine_seq {A} (l : list (option A)) s j x :
+  nth j l None = Some x -> In ((s + j)%nat, Some x) (combine (seq s (length l)) l).
+Proof.
+  revert s j. induction l as [|y l IH]; intros s j Hx; [rewrite nthnil in Hx; discriminate|].
+  destruct j; cbn [nth] in Hx; cbn [length seq combine].
+  - subst. left. now rewrite Nat.add_0_r.
+  - right. replace (s + S j)%nat with (S s + j)%nat by lia. now apply IH.
+Qed.
+Lemma present_minors_In {A} (d : list (option A)) m : In m (present_minors d) <-> nth m d None <> None.
+Proof.
+  unfold present_minors. rewrite in_map_iff. split.
+  - intros [[i o] [E H]]. cbn in E. subst i. apply filter_In in H as [H P]. cbn in P.
+    apply combine_seq_In in H as [_ H]. rewrite Nat.sub_0_r in H. rewrite H.
+    destruct o; [discriminate|discriminate].
+  - intros H. destruct (nth m d None) as [x|] eqn:E; [|congruence].
+    exists (m, Some x). split; auto. apply filter_In. split; auto.
+    apply (In_combine_seq d 0%nat m x E).
+Qed.
